@@ -10,7 +10,11 @@ import (
 	"os"
 	"os/signal"
 	"path/filepath"
+	"runtime"
+	"strconv"
 	"strings"
+	"sync"
+	"sync/atomic"
 	"syscall"
 
 	"github.com/tetratelabs/wazero"
@@ -315,6 +319,51 @@ func (w *world) close() {
 	if w.cacheDir != "" {
 		os.RemoveAll(w.cacheDir)
 	}
+	w.rts, w.caches, w.code = nil, nil, nil
+	if w.c.Engine == "compiler" {
+		collectClosedWorlds()
+	}
+}
+
+// wazevo releases the mmap'ed code of a closed runtime (shared trampolines, entry preambles, host and guest module
+// executables: several hundred KiB per world) only in FINALIZERS, and the Go GC does not see that memory, so it is
+// not paced by it: with ~10^6 short-lived worlds the process grew to tens of GiB. A collection is therefore forced
+// after every gcEveryWorlds closed compiler worlds (the finalizers run right after it).
+const gcEveryWorlds = 96
+
+var (
+	closedCompilerWorlds atomic.Int64
+	forcedGCs            atomic.Int64
+	gcMu                 sync.Mutex
+)
+
+func collectClosedWorlds() {
+	if closedCompilerWorlds.Add(1)%gcEveryWorlds != 0 {
+		return
+	}
+	if gcMu.TryLock() {
+		runtime.GC()
+		forcedGCs.Add(1)
+		gcMu.Unlock()
+	}
+}
+
+// rssBytes is the resident set size of the process (includes the mmap'ed code that runtime.MemStats does not).
+func rssBytes() int64 {
+	b, err := os.ReadFile("/proc/self/status")
+	if err != nil {
+		return 0
+	}
+	for _, l := range strings.Split(string(b), "\n") {
+		if strings.HasPrefix(l, "VmRSS:") {
+			f := strings.Fields(l)
+			if len(f) >= 2 {
+				kb, _ := strconv.ParseInt(f[1], 10, 64)
+				return kb << 10
+			}
+		}
+	}
+	return 0
 }
 
 type inst struct {
